@@ -1592,3 +1592,17 @@ M("C18-benign-product-portable-branch", "C18", "src/dtoolbase/pdtoa.cxx",
   "#elif (__GNUC__ > 4 || (__GNUC__ == 4 && __GNUC_MINOR__ >= 6)) && defined(__x86_64__)\n    unsigned __int128 p",
   "#elif 0\n    unsigned __int128 p",
   benign=True)
+
+# ---------------------------------------------------------------- R02.9 (seed S6-C02)
+M("C02-keyword-test-inverted-equal-api", "C02", "src/interrogatedb/py_support.cxx",
+  "      return PyUnicode_CheckExact(key) && _PyUnicode_EqualToASCIIString(key, keyword);",
+  "      return PyUnicode_CheckExact(key) && _PyUnicode_EqualToASCIIString(key, keyword) == 0;",
+  expect="R02.9|Dtool_ExtractOptionalArg(4)|_PyUnicode_EqualToASCIIString")
+M("C02-keyword-test-compare-api-bare", "C02", "src/interrogatedb/py_support.cxx",
+  "#if PY_MAJOR_VERSION >= 3\n      return PyUnicode_CheckExact(key) && PyUnicode_CompareWithASCIIString(key, keyword) == 0;\n#else\n      return PyString_CheckExact(key) && strcmp(PyString_AS_STRING(key), keyword) == 0;\n#endif\n    }\n  }\n\n  return false;",
+  "#if PY_MAJOR_VERSION >= 3\n      return PyUnicode_CheckExact(key) && PyUnicode_CompareWithASCIIString(key, keyword);\n#else\n      return PyString_CheckExact(key) && strcmp(PyString_AS_STRING(key), keyword) == 0;\n#endif\n    }\n  }\n\n  return false;",
+  expect="R02.9|Dtool_ExtractArg(4)|PyUnicode_CompareWithASCIIString")
+M("C02-benign-keyword-test-not-not", "C02", "src/interrogatedb/py_support.cxx",
+  "      return PyUnicode_CheckExact(key) && _PyUnicode_EqualToASCIIString(key, keyword);",
+  "      return PyUnicode_CheckExact(key) && _PyUnicode_EqualToASCIIString(key, keyword) != 0;",
+  benign=True)
